@@ -199,6 +199,30 @@ def strategy(tier):
     return st.one_of(read_case(), read_case(), write_case(), unlimited_case(), multi_case())
 
 
+def enumerate_cases(tier):
+    """reading several files at once: {stack, concatenate along x, along y} x {no align, align, align + sort} x keys x how the
+    secondary axes of the second / third file relate to the first file's (equal, permuted, overlapping, subset) x 2-3 files"""
+    lx, ly, ls = [3, 1, 2], [0.5, 2.5, 1.5], ["b", "c", "a"]
+    fs = {"vars": [["v0", {"dims": ["x", "y"], "labels": [lx, ly], "vk": "f", "base": 0, "attrs": {"units": "m"}}],
+                   ["v1", {"dims": ["y", "s", "x"], "labels": [ly, ls, lx], "vk": "i", "base": 30, "attrs": {}}]], "attrs": {"title": "file"}}
+    rel = {"equal": {"x": lx, "y": ly, "s": ls}, "permuted": {"x": [1, 2, 3], "y": [2.5, 1.5, 0.5], "s": ["c", "a", "b"]},
+           "overlapping": {"x": [7, 2], "y": [1.5, 0.25], "s": ["d", "b"]}, "subset": {"x": [2, 3], "y": [2.5], "s": ["a"]}}
+    disjoint = {"x": [[9, 8], [20]], "y": [[7.5, 6.5], [-1.0]]}
+    for how, cdim in (("stack", None), ("concatenate", "x"), ("concatenate", "y")):
+        for align, sort in ((False, False), (True, False), (True, True)):
+            for r in (["equal"] if not align else ["equal", "permuted", "overlapping", "subset"]):
+                for nfiles in (2, 3):
+                    for keys in ((None, "str") if how == "stack" else (None,)):
+                        others = []
+                        for j in range(nfiles - 1):
+                            o = {d: list(l) for d, l in rel[r if j == 0 else "permuted" if align else "equal"].items()}
+                            if cdim:
+                                o[cdim] = list(disjoint[cdim][j])
+                            others.append(o)
+                        yield "multi-file-grid", {"mode": "multi", "file": fs, "others": others, "how": how, "cdim": cdim, "align": align, "sort": sort,
+                                                  "keys": keys, "names": None}
+
+
 # ----------------------------------------------------------------------------------------------
 # helpers
 # ----------------------------------------------------------------------------------------------
